@@ -433,10 +433,10 @@ func Harness_C05_Filters(nf int) {
 // and a ServeMux reach the same method.
 func Harness_C05_Mount() {
 	mount := verif.Choose(3)
-	reqSel := verif.Choose(4)
-	targets := []string{"/things", "/things/k", "/things/k/info", "/nope"}
-	wantMethod := []string{"get_all", "get", "get", ""}
-	wantRes := []string{"things", "things", "info", ""}
+	reqSel := verif.Choose(6)
+	targets := []string{"/things", "/things/k", "/things/k/info", "/nope", "/hings", "/ings/k"}
+	wantMethod := []string{"get_all", "get", "get", "", "", ""}
+	wantRes := []string{"things", "things", "info", "", "", ""}
 	m := &mockThings{item: &vt.Item{Name: "x"}}
 	var h http.Handler
 	prefix := ""
@@ -446,7 +446,8 @@ func Harness_C05_Mount() {
 		registerAll(s, m)
 		h = s.Handler()
 	case 1:
-		prefix = "/api"
+		// prefixes that share letters (or a whole segment) with the resource names
+		prefix = []string{"/api", "/t", "/things", "/sgniht", "/a/things"}[verif.Choose(5)]
 		s := restli.NewPrefixedServer(prefix)
 		registerAll(s, m)
 		h = s.Handler()
